@@ -17,15 +17,15 @@ CHECKS = {
 CHECKS.update({
     'C01': dict(
         level='exploration',
-        technique='round-trip property over generated values with constructed lengths around the storage threshold (Hypothesis), strict type/bit equality oracle',
+        technique='round-trip property over generated values with constructed lengths around the storage threshold (Hypothesis + atheris/libFuzzer campaigns through fuzz_one_input), strict type/bit equality oracle; single transient I/O fault injection',
         text='Values of every supported kind are built to exact lengths around disk_min_file_size, stored under all pickle protocols with Disk and JSONDisk '
-             'and read back through every accessor; equality is strict (type, IEEE bits, code points, recursive). Unstorable values must raise and leave the old value.',
+             'and read back through every accessor; equality is strict (type, IEEE bits, code points, recursive). Unstorable values must raise and leave the old value; with one transient failure in the file write, source stream or open the store must fail or the value come back intact.',
         note='JSONDisk is judged on its own contract (objects via JSON, streams raw). Known finding: Deque indexing on JSONDisk (recorded, excluded by construction, counted).',
         ref='3/C01',
     ),
     'C02': dict(
         level='exploration',
-        technique='pairwise key-identity oracle over generated and derived key pairs (Hypothesis), incl. paged sorted iteration',
+        technique='pairwise key-identity oracle over generated and derived key pairs (Hypothesis + atheris/libFuzzer campaigns), incl. paged sorted iteration with ties',
         text='Pairs of keys, independent or derived across the encoding boundaries (int/float twins, bool/int, str/bytes, bytes equal to a pickle of the other key, '
              'int64 borders), are stored in one cache; equal documented identity must give one entry, different identity two, in every lookup and all four iteration orders.',
         note='Identity oracle is written from the tutorial (Disk, Caveats); both keys are rebuilt by one deterministic builder (pickling caveat, issue #54).',
@@ -49,7 +49,7 @@ CHECKS.update({
     ),
     'C16': dict(
         level='exploration',
-        technique='exhaustive enumeration of small-arity call signatures (cache-key collision oracle with an echo function) + Hypothesis wrapper histories under a virtual clock',
+        technique='exhaustive enumeration of small-arity call signatures (cache-key collision oracle with an echo function) + generated signature pairs (Hypothesis + atheris/libFuzzer) + wrapper histories under a virtual clock',
         text='All 82 000 signatures with <= 3 positionals and kwargs within {a,b} over a 9-value alphabet x typed x 5 ignore sets are keyed; equal keys must be calls the '
              'function answers identically. Wrapper histories through all five decorators check result equality, no re-run within expiry, re-run after, expire=0 stores nothing.',
         note='memoize_stampede runs with random pinned to never-early; its probabilistic early recomputation is not judged.',
@@ -148,7 +148,7 @@ CHECKS.update({
 CHECKS.update({
     'C07': dict(
         level='fault_enumeration',
-        technique='generated workloads x enumerated kill points (SIGKILL in a forked child at harness yield points); reference-run oracle evaluated through a new handle',
+        technique='generated workloads x enumerated kill points (SIGKILL in a forked child at harness yield points); reference-run oracle evaluated through a new handle; thorough tier adds asynchronous kills of a free-running writer (supplementary)',
         text='For every generated workload the yield points (each database statement, file create/write/close/remove, directory create/remove) are enumerated by a reference run; a forked child '
              'kills itself at the chosen point (quick: every label class once per workload; thorough: every point). The directory must open, hold the state before or after the interrupted operation '
              '(compound loops: any transaction boundary of the reference run), serve complete values, accept a write within timeout=1, show only orphan files/empty directories, and be clean after check(fix=True).',
@@ -157,7 +157,7 @@ CHECKS.update({
     ),
     'C08': dict(
         level='fault_enumeration',
-        technique='generated histories x enumerated single-fault sites (SQL error at the n-th statement, ENOSPC at the n-th file operation, unencodable values) + scheduled concurrent programs; independent rows-vs-files audit',
+        technique='generated histories x enumerated single-fault sites (SQL error at the n-th statement, ENOSPC at the n-th file write operation, EIO at the n-th value-file read, unencodable values) + scheduled concurrent programs and transaction blocks; independent rows-vs-files audit',
         text='Each history is first run unfaulted to enumerate its fault sites, then re-run with one injected failure per site (quick: one sampled site; thorough: every site). At quiescence an audit read through a '
              'raw sqlite3 connection and os.walk checks count, size, file-per-row with recorded size, no unreferenced value file, len(), and check().',
         note='unlink failures are not injected (no implementation can then satisfy the property; Disk.remove documents suppression). A failing COMMIT is simulated as SQLite behaves for I/O errors (rollback, then raise).',
@@ -166,7 +166,7 @@ CHECKS.update({
     'C14': dict(
         level='fault_enumeration',
         technique='complete enumeration of the operation x lock-injector matrix (foreign SQLite connection driven from the SQL seam) + generated pre-states; snapshot-unchanged and unfaulted-twin oracles',
-        text='976 cells {operation of Cache/FanoutCache/DjangoCache/Deque/Index} x {lock held, taken at the first BEGIN after the value file was written, taken at the second page, released at attempt k} x '
+        text='All cells (about 1100) {operation of Cache/FanoutCache/DjangoCache/Deque/Index} x {lock held, taken at the first BEGIN after the value file was written, taken at the second page, released at attempt k} x '
              '{inline,file} x {retry} x {lock-free, statistics, LRU} are all executed, plus generated pre-states: Timeout/Timeout(n)/failure value, audit snapshot unchanged, retried calls equal an unfaulted twin, reads work under lock.',
         note='The lock is a real SQLite write lock taken by a second raw connection; timeout=0 makes contention immediate and deterministic.',
         ref='3/C14',
